@@ -108,11 +108,15 @@ fn old_kind(new: u8) -> Option<u8> {
 }
 
 /// current layout -> 0.4 layout, byte level
-pub fn downgrade(d: &RawDump) -> RawDump {
+pub fn downgrade(d: &RawDump, empty_pending_key: bool) -> RawDump {
     let mut out: BTreeMap<Vec<u8>, Vec<u8>> = BTreeMap::new();
     let mut pending: BTreeMap<u16, RoaringBitmap> = BTreeMap::new();
     for (k, v) in d {
         let key = decode::decode_key(k).unwrap();
+        if empty_pending_key {
+            // an index without pending updates still has its pending-updates key, holding an empty bitmap
+            pending.entry(key.index).or_default();
+        }
         match key.kind {
             decode::KIND_UPDATED => {
                 pending.entry(key.index).or_default().insert(key.id);
@@ -246,7 +250,7 @@ pub fn run(seed: u64, count: usize, first_no: usize, out: &mut Vec<Value>) -> us
         let (_d0, env0, db0) = fresh(h.map_size);
         let (orig, _) = materialise(&h, &env0, db0);
         let orig = strip_versions(&orig);
-        let old = downgrade(&orig);
+        let old = downgrade(&orig, rng.gen_bool(0.5));
         let (_d1, env_a, db_a) = fresh(h.map_size);
         load(&env_a, db_a, &old);
         let (_d2, env_b, db_b) = fresh(h.map_size);
